@@ -215,6 +215,10 @@ pub fn eval_parse(c: &ParseCase, obs: &mut Obs) -> Result<(), String> {
         Some(v) if *v == want => {}
         other => return Err(format!("kind {} content {} declared size {size} (pad {:#x}): expected {}, got {:?}", c.kind, hex(&c.content.0), c.pad, want.render(), other.map(|v| v.render()))),
     }
+    // the tag's own size getter (the boot-loader-name tag has one) is the declared size
+    if c.kind == 2 && t.get("t0.size") != Some(&Val::U(size as u64)) {
+        return Err(format!("boot-loader-name tag with declared size {size}: size() = {:?}", t.get("t0.size").map(|v| v.render())));
+    }
     // the same tag inside a boot information, reached through the typed getter
     // of the loaded structure and through the tag walk
     let mut region = vec![0u8; 8];
